@@ -289,6 +289,126 @@ def native_compression(ctx):
     return last
 
 
+def check_lz4_coherent(ctx):
+    """writer and reader agree on what an Lz4-tagged item stores.  The LZ4 codec itself is contract F6 (decompress(compress(v)) = v, compress(v) has an
+    arbitrary length); what is decided here is fjall's own logic around it: for an item of ANY value length and ANY compressed length, the bytes
+    serialize_marker_item stores under the Lz4 tag are exactly what Entry::decode_from turns back into the value."""
+    from ..contract import SliceView
+    wpat = r'serialize_marker_item$'
+    rpat = r'entry::<impl>::decode_from$'
+    ob = ctx.ob('compression/lz4-coherent', 'serialize_marker_item (Lz4) -> Entry::decode_from: the stored bytes are the LZ4 image of the value and the reader decompresses exactly those; no length coincidence changes how the payload is interpreted', [wpat, rpat])
+    wfn = ctx.prog.find(wpat); rfn = ctx.prog.find(rpat)
+    vlen = z3.BitVec('vlen', 64)
+    bad = []
+
+    def wsetup(ex, st, fr):
+        w = Obj('Vec<u8>', 'sink', 'bytes'); w.data['segs'] = []
+        fr.locals[wfn.args[0]] = Cell(Ref(Cell(w)))
+        val = Obj('[u8]', 'value', 'bytes'); val.data['symlen'] = vlen
+        st.pc.append(z3.ULT(vlen, bv(2 ** 31)))
+        fr.locals[wfn.args[3]] = Cell(Ref(Cell(val), vlen))
+        fr.locals[wfn.args[5]] = Cell(ex.mk_enum('lsm_tree::CompressionType', 'Lz4'))
+        st.globals['__sink'] = w
+    wex = ctx.executor(loop_bound=3)
+    wpaths = wex.run(wfn, setup=wsetup)
+    ctx.functions_encoded[wfn.key] = ctx.prog.hashes.get(wfn.name, ''); ctx.functions_encoded[rfn.key] = ctx.prog.hashes.get(rfn.name, '')
+    ctx.paths_total += len(wpaths); ctx.solver_s += wex.stats['solver_s']; ctx.queries += wex.stats['solver_calls']
+    from ..symex import Ev
+
+    def ov_from_reader(ex, st, call):
+        from ..contract import reader_target, norm_segs
+        tgt = reader_target(ex, st, call.args[0])
+        if tgt is None:
+            return NotImplemented
+        cell, buf, pos = tgt
+        segs = norm_segs(buf.data['segs'])
+        if pos >= len(segs):
+            return ex.mk_enum(call.dst_ty, 'Err', [Obj('std::io::Error', 'eof', 'opaque')])
+        k, v = segs[pos]
+        cell.val = Ref(cell.val.cell, SliceView(pos + 1))
+        o = Obj('lsm_tree::Slice', 'read', 'bytes')
+        o.data['read_seg'] = (k, v); o.data['read_len'] = call.args[1]
+        st.emit(Ev('SLICE_READ', args={'seg': k, 'len': call.args[1]}, site=call.site))
+        return ex.mk_enum(call.dst_ty, 'Ok', [o])
+
+    def ov_builder(ex, st, call):
+        b = Obj('byteview::Builder', 'builder', 'bytes'); b.data['cap'] = call.args[0]; b.data['symlen'] = call.args[0]
+        return b
+
+    def ov_decompress(ex, st, call):
+        src = deref(call.args[0]); dst = deref(call.args[1])
+        seg = src.data.get('read_seg') if isinstance(src, Obj) else None
+        st.emit(Ev('DECOMPRESS', args={'seg': seg[0] if seg else None}, site=call.site))
+        if isinstance(dst, Obj):
+            dst.data['decompressed_from'] = seg
+        if seg and seg[0] == 'lz4':
+            return ex.mk_enum(call.dst_ty, 'Ok', [vlen])          # F6: yields the original value, of its length
+        return ex.mk_enum(call.dst_ty, 'Ok', [z3.BitVec(f'garbage_len!{next(st.fresh)}', 64)])
+
+    def ov_builder_len(ex, st, call):
+        b = deref(call.args[0])
+        return b.data.get('cap') if isinstance(b, Obj) and 'cap' in b.data else NotImplemented
+
+    def ov_passthrough(ex, st, call):
+        return call.args[0]
+    for wp in wpaths:
+        if wp.status != 'returned' or ctx.sat(wp.pc + [ret_is_ok(wp)], ob)[0] != z3.sat:
+            continue
+        segs = list(wp.st.globals['__sink'].data['segs'])
+        stored = segs[-1]
+        mode_w = 'lz4' if stored[0] == 'lz4' else 'raw'
+
+        def rsetup(ex, st, fr, segs=segs, wp=wp):
+            buf = Obj('[u8]', 'image', 'bytes'); buf.data['segs'] = list(segs)
+            st.pc.extend(wp.pc)
+            fr.locals[rfn.args[0]] = Cell(Ref(Cell(Ref(Cell(buf), SliceView(0)))))
+        rex = ctx.executor(loop_bound=3, overrides=[(r'Slice::from_reader$', ov_from_reader), (r'Slice::builder_unzeroed$', ov_builder), (r'decompress_into$', ov_decompress),
+                                                   (r'Builder::freeze$|::freeze$', ov_passthrough), (r'<.*Builder.* as Deref(Mut)?>::deref(_mut)?$', ov_passthrough)])
+        rpaths = rex.run(rfn, setup=rsetup)
+        ctx.paths_total += len(rpaths); ctx.solver_s += rex.stats['solver_s']; ctx.queries += rex.stats['solver_calls']
+        for rp in rpaths:
+            if rp.status != 'returned':
+                if rp.status == 'panic' and ctx.sat(rp.pc, ob)[0] == z3.sat:
+                    ob.reach += 1; bad.append((rp, 'decoding an item the writer produced can panic'))
+                continue
+            if ctx.sat(rp.pc, ob)[0] != z3.sat:
+                continue
+            ob.reach += 1
+            if ctx.sat(rp.pc + [ret_is_ok(rp)], ob)[0] != z3.sat:
+                bad.append((rp, f'an Lz4 item the writer produced (stored as {mode_w}) is refused by the reader')); continue
+            dec = [e for e in rp.events if e.kind == 'DECOMPRESS']
+            rd = [e for e in rp.events if e.kind == 'SLICE_READ']
+            mode_r = 'lz4' if dec else 'raw'
+            if mode_w != mode_r:
+                cond = [str(c)[:80] for c in rp.pc if 'len_lz4' in str(c) or 'vlen' in str(c)][-2:]
+                bad.append((rp, (f'the writer stores the {"LZ4 image" if mode_w == "lz4" else "raw bytes"} of the value under the Lz4 tag, but on a feasible path ({cond}) the reader '
+                                 f'{"returns the stored bytes as they are" if mode_r == "raw" else "decompresses them"}: the value read back differs from the value written'))); continue
+            if dec and dec[0].args.get('seg') != 'lz4':
+                bad.append((rp, 'the reader decompresses something that is not the stored LZ4 image')); continue
+    if ob.reach == 0:
+        ob.status = 'undecided'; ob.detail = 'vacuous'
+    elif not bad:
+        ob.status = 'discharged'; ob.sample = {'paths': ob.reach}
+    else:
+        ctx.candidate(ob, 'journal-codec/lz4-payload-misread', bad[0][1], confirm=lambda: native_lz4_fixpoint(ctx))
+
+
+def native_lz4_fixpoint(ctx):
+    """values of >= 4 KiB (journal compression threshold) with every relation between LZ4 size and value size, including a value whose LZ4 image is exactly
+    as long as the value (found by the driver with lz4_flex); written singly and in a batch, read back after a reopen"""
+    L = ['dir $DIR/db', 'open workers=0', 'ks a', 'lz4_values a', 'close', 'open workers=0', 'ks a', 'lz4_verify a', 'close']
+    spath, out = ctx.run_scenario('\n'.join(L) + '\n', tag='lz4-fixpoint')
+    if any(c == 'CRASH' for _i, c, _r in out):
+        return True, spath, 'crash: ' + out[-1][2][-200:]
+    v = [r for _i, c, r in out if c == 'lz4_verify']
+    w = [r for _i, c, r in out if c == 'lz4_values']
+    if w and not w[0].startswith('ok'):
+        return False, spath, f'could not build the test values: {w[0]}'
+    if v and v[0] != 'ok':
+        return True, spath, f'values written with journal compression are read back differently after a reopen: {v[0]} (written: {w[0] if w else "?"})'
+    return False, spath, f'held natively ({w[0] if w else ""})'
+
+
 KANI_HARNESSES = [
     ('start_roundtrip', 'Start marker: every (item_count, seqno) round-trips through encode_into / decode_from in 13 bytes', 600),
     ('clear_roundtrip', 'Clear marker: every keyspace id round-trips', 600),
@@ -323,6 +443,7 @@ def run(ctx):
     for i, sh in enumerate(shapes):
         check_damage(ctx, sh, i)
     check_compression_choice(ctx)
+    check_lz4_coherent(ctx)
     if ctx.tier == 'thorough':
         check_kani(ctx)
     for o in ctx.obligations:
@@ -332,7 +453,7 @@ def run(ctx):
 
 MUTANTS = [
     {'name': 'reader accepts a batch whose checksum does not match', 'edits': [('src/journal/batch_reader.rs', "                    if got_checksum != expected_checksum {", "                    if got_checksum != expected_checksum && false {")]},
-    {'name': 'batch checksum does not cover the last item', 'edits': [('src/journal/writer.rs', "            hasher.update(&self.buf);\n            byte_count += self.buf.len();\n\n            self.buf.clear();", "            if byte_count < 40 { hasher.update(&self.buf); }\n            byte_count += self.buf.len();\n\n            self.buf.clear();")]},
+    {'name': 'batch checksum covers only the first item', 'edits': [('src/journal/writer.rs', "        for item in items {\n            debug_assert!(self.buf.is_empty());", "        let mut first = true;\n        for item in items {\n            debug_assert!(self.buf.is_empty());"), ('src/journal/writer.rs', "            hasher.update(&self.buf);\n            byte_count += self.buf.len();\n\n            self.buf.clear();", "            if first { hasher.update(&self.buf); }\n            first = false;\n            byte_count += self.buf.len();\n\n            self.buf.clear();")]},
     {'name': 'item encoder writes the value length as key length', 'edits': [('src/journal/entry.rs', "    writer.write_u16::<LittleEndian>(key.len() as u16)?;", "    writer.write_u16::<LittleEndian>(value.len() as u16)?;")]},
     {'name': 'item decoder reads the on-disk length for the key', 'edits': [('src/journal/entry.rs', "                let key = Slice::from_reader(reader, usize::from(key_len))?;", "                let key = Slice::from_reader(reader, on_disk_value_len as usize)?;")]},
     {'name': 'compression chosen by key length', 'edits': [('src/journal/writer.rs', "                if self.compression_threshold > 0 && item.value.len() >= self.compression_threshold\n                {", "                if self.compression_threshold > 0 && item.key.len() >= self.compression_threshold\n                {")]},
